@@ -146,7 +146,7 @@ def fn_params(fn: ast.FunctionDef, an: Annot, skip_first: bool) -> list[str]:
 
 def collect() -> dict[str, Any]:
 	methods: list[tuple[str, str, str, list[str], str]] = []
-	funcs: list[tuple[str, list[str], str]] = []
+	funcs: list[tuple[str, bool, list[str], str]] = []
 	classes: list[tuple[str, list[str]]] = []
 	trees: list[ast.Module] = []
 	actual: dict[str, str] = {}
@@ -180,14 +180,14 @@ def collect() -> dict[str, Any]:
 					ret = an.ty(m.returns)
 					if m.name == '__init__':
 						# FunctionTrait._build_schema (reflection/traits.py:463-465): a constructor returns its class
-						funcs.append((cname, params, self_ty))
+						funcs.append((cname, True, params, self_ty))
 					else:
 						methods.append((cname, m.name, recv, params, ret))
 			elif isinstance(node, ast.FunctionDef):
 				if node.name == '__actual__':
 					continue
 				an = Annot(set(type_params(node)), actual)
-				funcs.append((actual_name(node), fn_params(node, an, False), an.ty(node.returns)))
+				funcs.append((actual_name(node), False, fn_params(node, an, False), an.ty(node.returns)))
 	from rogw.tranp.syntax.node.definition.accessible import PythonClassOperations as Ops
 	operators = dict(getattr(Ops, '_PythonClassOperations__operators'))
 	if not operators or not all(isinstance(k, str) and isinstance(v, str) for k, v in operators.items()):
@@ -199,7 +199,7 @@ def render(t: dict[str, Any]) -> str:
 	out = [
 		'/-',
 		'  GENERATED by verif/translate/gen_dunder.py from',
-		*[f'    /repo/{s}' for s in SOURCES],
+		*[f'    <repo>/{s}' for s in SOURCES],
 		'    PythonClassOperations.__operators (rogw/tranp/syntax/node/definition/accessible.py)',
 		'  Do not edit; rewritten on every run of ./check C03.',
 		'-/',
@@ -214,7 +214,7 @@ def render(t: dict[str, Any]) -> str:
 	rows = [f'  ⟨{lstr(c)}, {lstr(m)}, {recv}, {tys(ps)}, {ret}⟩' for c, m, recv, ps, ret in t['methods']]
 	out.append(',\n'.join(rows))
 	out += [']', '', '/-- module-level stub functions; a class constructor appears under the class name and returns the class -/', 'def funcs : List Func := [']
-	out.append(',\n'.join(f'  ⟨{lstr(n)}, {tys(ps)}, {ret}⟩' for n, ps, ret in t['funcs']))
+	out.append(',\n'.join(f"  ⟨{lstr(n)}, {'true' if ctor else 'false'}, {tys(ps)}, {ret}⟩" for n, ctor, ps, ret in t['funcs']))
 	out += [']', '', '/-- operator token -> special method name -/', 'def operators : List (Tranp.Str × Tranp.Str) := [']
 	out.append(',\n'.join(f'  ({lstr(k)}, {lstr(v)})' for k, v in t['operators'].items()))
 	out += [']', '', f"def iteratorName : Tranp.Str := {lstr(t['iterator'])}", f"def iterableName : Tranp.Str := {lstr(t['iterable'])}", '', 'end Tranp.Generated.Dunder', '']
